@@ -842,7 +842,7 @@ impl<'a> Builder<'a> {
 }
 
 fn random_string(rng: &mut Rng) -> (String, usize) {
-    if rng.chance(1, 12) {
+    if rng.chance(1, 7) {
         // A long line with multi-byte characters at assorted byte positions
         let n = 12 + rng.usize_below(24);
         let mut text = String::new();
